@@ -32,11 +32,11 @@ def _relayout(a, lay):
         if lay in ("neg", "negy", "negx", "F", "T"):
             out = a[::-1].copy()[::-1]
         elif lay in ("strided", "stridedF"):
-            big = np.full(3 * n + 4, -77, dtype=a.dtype)
+            big = np.full(3 * n + 4, _fill(a), dtype=a.dtype)
             big[2:2 + 3 * n:3] = a
             out = big[2:2 + 3 * n:3]
         elif lay == "window":
-            big = np.full(n + 5, -77, dtype=a.dtype)
+            big = np.full(n + 5, _fill(a), dtype=a.dtype)
             big[2:2 + n] = a
             out = big[2:2 + n]
         elif lay in ("ro", "roF"):
@@ -64,13 +64,13 @@ def _relayout(a, lay):
     elif lay == "negx":
         out = a[:, ::-1].copy()[:, ::-1]
     elif lay in ("strided", "stridedF"):
-        big = np.full((2 * h + 3, 3 * w + 4), -77, dtype=a.dtype)
+        big = np.full((2 * h + 3, 3 * w + 4), _fill(a), dtype=a.dtype)
         if lay == "stridedF":
             big = np.asfortranarray(big)
         big[1:1 + 2 * h:2, 2:2 + 3 * w:3] = a
         out = big[1:1 + 2 * h:2, 2:2 + 3 * w:3]
     elif lay == "window":
-        big = np.full((h + 3, w + 5), -77, dtype=a.dtype)
+        big = np.full((h + 3, w + 5), _fill(a), dtype=a.dtype)
         big[1:1 + h, 2:2 + w] = a
         out = big[1:1 + h, 2:2 + w]
     elif lay == "ro":
@@ -89,6 +89,11 @@ def _relayout(a, lay):
         raise ValueError(lay)
     assert out.shape == a.shape and np.array_equal(out, a)
     return out
+
+
+def _fill(a):
+    """padding value of the larger buffers (never read back): negative where the dtype has negatives"""
+    return 77 if a.dtype.kind in "ub" else -77
 
 
 def _intervals(n):
@@ -636,6 +641,138 @@ def _template_histories():
                     {"s": "aread", "src": 0}]}
 
 
+# ======================================================================================================
+# Round-5/6 hardening: "world" cases.  One world = a frame of values + three layout regions + a region R0 +
+# a window + two corners + a pixel range, observed through EVERY observe_at entry in one go (rotate_array /
+# rotate_region, Layout2D.rotated_from_roe_corner / new_rotated_from / layout_extracted_from /
+# original_orientation_from / both overscan extractions, Array2D.original_orientation, region_after_extraction,
+# front / trailing sub-regions, Layout1D) -- possibly several ROUNDS of it, with scribbling over everything the
+# API returned or accepted, in-place re-use of the caller's array, configuration flips, and option / container
+# variants of every constructor on the way.  Every round is judged by the model (existing driver ops on the
+# round's values: the model has no state, so its answer IS the answer of a fresh world) and by the oracle.
+# ======================================================================================================
+DEC_K_QUICK = (-1070, -1000, -500, -300, -150, -100, -60, -45, -40, -30, -20, -10, 0, 10, 20, 30, 40, 45, 60, 100,
+               150, 300, 500, 1000)
+DEC_PATTERNS = ("distinct", "near_sym_x", "near_sym_y", "near_sym_xy", "near_uniform", "mixed_range", "sym_exact",
+                "region_scaled", "near_zero")
+INT_RANGE = {"i8": (-2 ** 63, 2 ** 63 - 1), "i4": (-2 ** 31, 2 ** 31 - 1), "i2": (-2 ** 15, 2 ** 15 - 1),
+             "u1": (0, 255)}
+NP_DT = {"f8": np.float64, "f4": np.float32, "i8": np.int64, "i4": np.int32, "i2": np.int16, "u1": np.uint8}
+FAR_ORIGIN = [2.0 ** 17 + 0.5, -3.0 * 2 ** 18]
+
+# option axes of the constructors on the way (R5-C containers / R5-F options); first value = the default
+WORLD_AXES = {
+    "a2d_ctor": ["init", "no_mask", "no_mask_slim", "from_a2d_slim", "from_a2d_native", "apply_mask", "native_of",
+                 "slim_of"],
+    "a2d_values": ["nd", "list"],
+    "store_native": [False, True, 0, 1],
+    "skip_mask": [None, False, True],
+    "mask_kind": ["all_false", "bool_lay", "list", "from_mask", "inverted", "masked"],
+    "origin": [None, [0.0, 0.0], [0, 0], FAR_ORIGIN],
+    "pixel_scales": [1.0, 1, [2.0 ** -30, 2.0 ** 20], 2.0 ** 40, [0.5]],
+    "ext_ctor": ["no_mask", "init_slim", "init_native", "native_of"],
+    "ext_header": [None, "hdr"],
+    "hdr_opts": [0, 1, 2, 3],
+    "omit_none": [False, True],
+    "explicit_defaults": [False, True],
+    "layout_via": ["rotated_from", "ctor_then_rot"],
+    "present": [7, 0b101, 0b001, 0b100, 0b010, 0b011, 0b110],
+    "corner": [0, 1, 2, 3],
+    "corner2": [0, 1, 2, 3],
+    "reg": ["tuple", "list", "npint", "obj", "mixed"],
+    "shp": ["tuple", "list", "npint"],
+    "dt": ["f8", "f4", "i8", "i4", "i2", "u1"],
+    "lay": ["C", "F", "T", "neg", "negy", "negx", "strided", "stridedF", "window", "ro", "roF", "be", "unaligned"],
+}
+HDR_OPTS = [{}, {"readout_offsets": (0, 0)}, {"readout_offsets": (3, 5)}, {"header_sci_obj": {}, "header_hdu_obj": {}}]
+
+
+def _pairwise_rows(axes, seed=20190519):
+    """a greedy strength-2 covering array over `axes` (dict name -> values): every pair of values of every two
+    axes occurs together in at least one row.  Deterministic (own fixed-seed generator)."""
+    import random as _random
+    rng = _random.Random(seed)
+    names = list(axes)
+    unc = {(i, a, j, b) for i in range(len(names)) for j in range(i + 1, len(names))
+           for a in range(len(axes[names[i]])) for b in range(len(axes[names[j]]))}
+    rows = []
+    while unc:
+        i, a, j, b = min(unc)
+        row = {i: a, j: b}
+        order = [k for k in range(len(names)) if k not in row]
+        rng.shuffle(order)
+        for k in order:
+            best, best_gain = [], -1
+            for v in range(len(axes[names[k]])):
+                gain = sum(1 for (m, mv) in row.items()
+                           if ((m, mv, k, v) if m < k else (k, v, m, mv)) in unc)
+                if gain > best_gain:
+                    best, best_gain = [v], gain
+                elif gain == best_gain:
+                    best.append(v)
+            row[k] = rng.choice(best)
+        for m in row:
+            for k in row:
+                if m < k:
+                    unc.discard((m, row[m], k, row[k]))
+        rows.append({names[k]: axes[names[k]][row[k]] for k in range(len(names))})
+    return rows
+
+
+def _exact_as(fr, dt):
+    """is the Fraction `fr` exactly representable in dtype `dt`?"""
+    try:
+        if dt in INT_RANGE:
+            lo, hi = INT_RANGE[dt]
+            return fr.denominator == 1 and lo <= fr.numerator <= hi
+        if dt == "f4":
+            with np.errstate(all="ignore"):
+                x = np.float32(float(fr))
+            return bool(np.isfinite(x)) and Fraction(float(x)) == fr
+        return Fraction(float(fr)) == fr
+    except (OverflowError, ValueError):
+        return False
+
+
+def _dec_values(rng, h, w, pat, k, j, region):
+    """a frame of exact Fractions at decade 2^k: `pat` says which ingredient is nearly degenerate (relative
+    difference 2^-j)."""
+    n = h * w
+    s = Fraction(2) ** k
+    eps = Fraction(1, 2 ** j)
+    base = [Fraction(v) for v in gen.distinct_ints(rng, n, hi=60)]
+    g = [[base[y * w + x] for x in range(w)] for y in range(h)]
+    if pat in ("near_sym_x", "sym_exact"):
+        f = 1 if pat == "sym_exact" else 1 + eps
+        for y in range(h):
+            for x in range((w + 1) // 2, w):
+                g[y][x] = g[y][w - 1 - x] * f
+    if pat in ("near_sym_y", "sym_exact"):
+        f = 1 if pat == "sym_exact" else 1 + eps
+        for y in range((h + 1) // 2, h):
+            for x in range(w):
+                g[y][x] = g[h - 1 - y][x] * f
+    if pat == "near_sym_xy":
+        for i in range((n + 1) // 2, n):
+            y, x = divmod(i, w)
+            y2, x2 = divmod(n - 1 - i, w)
+            g[y][x] = g[y2][x2] * (1 + eps)
+    if pat == "near_uniform":
+        b = Fraction(rng.randint(1, 60)) * rng.choice((1, -1))
+        d = rng.sample(range(0, max(64, n)), n)
+        g = [[b * (1 + d[y * w + x] * eps) for x in range(w)] for y in range(h)]
+    if pat == "mixed_range":  # a dynamic range of 2^100 inside one frame, and a few exact zeros
+        g = [[v * Fraction(2) ** rng.choice((-50, -50, 0, 50)) if rng.random() < 0.9 else Fraction(0) for v in r]
+             for r in g]
+    if pat == "near_zero":  # everything 2^-60 below the decade except one pixel
+        yy, xx = rng.randrange(h), rng.randrange(w)
+        g = [[v if (y, x) == (yy, xx) else v * Fraction(1, 2 ** 60) for x, v in enumerate(r)] for y, r in enumerate(g)]
+    if pat == "region_scaled":  # one ingredient at the decade: the content of the region, the rest stays at 1
+        y0, y1, x0, x1 = region
+        return [g[y][x] * (s if (y0 <= y < y1 and x0 <= x < x1) else 1) for y in range(h) for x in range(w)]
+    return [g[y][x] * s for y in range(h) for x in range(w)]
+
+
 class C19(PropertyCheck):
     pid = "C19"
     title = "layout regions"
@@ -694,6 +831,9 @@ class C19(PropertyCheck):
         "autoarray/layout/layout.py:Layout2D.extract_serial_overscan_array_from",
         "autoarray/structures/arrays/uniform_2d.py:AbstractArray2D.original_orientation",
     ]
+    # region / layout arithmetic of region.py, layout_util.py, layout.py regenerated from the source on every run by
+    # harness/translate_region.py and tied to Model.Impl.* for all inputs (design_notes/TIES_C19reg.md)
+    loop_tie_modules = ["RegionArith"]
     assumptions = ["regions, windows and corners as quantified by the property: valid regions inside the "
                    "array, the four corners (1,0),(0,0),(1,1),(0,1)"]
 
@@ -703,6 +843,15 @@ class C19(PropertyCheck):
     #    alternative constructors.  Model and oracle are unaffected.
     def generate(self, tier, rng):
         quick = tier == "quick"
+        # -- round-5/6: worlds (decades, ownership, containers / options, configuration); the configuration
+        #    histories come first so that one of them starts the process with the non-default value in force
+        yield from self._cfg_worlds(rng, 60 if quick else 600)
+        yield from self._opt_pair_worlds(rng)
+        yield from self._own_worlds(rng, 150 if quick else 1500)
+        yield from self._dec_worlds(rng, quick)
+        yield from self._ctn_worlds(rng, 150 if quick else 2500)
+        yield from self._bigcoord_cases([2 ** 53 - 1, 2 ** 53, 2 ** 53 + 1, 2 ** 62, 2 ** 63 - 1, 2 ** 63, 2 ** 63 + 1,
+                                         2 ** 64, 2 ** 64 + 1, 10 ** 30, 2 ** 200 + 1], rng, "huge_coord")
         # -- round-4: histories on reused objects (seed-independent templates, then seeded typed histories)
         yield from _template_histories()
         themes = ("layout", "layout", "layout", "orient", "array", "array", "region", "mixed", "mixed")
@@ -874,6 +1023,173 @@ class C19(PropertyCheck):
             yield {"tag": "layout_ctor", "kind": "layout_ctor", "h": h, "w": w, "regions": [any_region() for _ in range(3)],
                    "corner": list(rng.choice(CORNERS))}
 
+    # ------------------------------------------------------------------ round-5/6: world generators
+    @staticmethod
+    def _world_base(rng, h=None, w=None, tag="world"):
+        h = h or rng.randint(1, 6)
+        w = w or rng.randint(1, 7)
+        regs = _regions(h, w)
+
+        def strip():
+            if rng.random() < 0.5:  # overscan-like strips hugging an edge
+                k = rng.randint(1, max(1, min(h, w) // 2))
+                return list(rng.choice([[h - k, h, 0, w], [0, h, 0, k], [0, h, w - k, w], [0, k, 0, w]]))
+            return list(rng.choice(regs))
+
+        return {"tag": tag, "kind": "world", "h": h, "w": w,
+                "values": qlist(gen.distinct_ints(rng, h * w)),
+                "regions": [strip() if rng.random() < 0.8 else None for _ in range(3)],
+                "region": list(rng.choice(regs)), "window": list(rng.choice(regs)),
+                "corner": list(rng.choice(CORNERS)), "corner2": list(rng.choice(CORNERS)),
+                "pixels": [rng.randint(0, 2), rng.randint(1, 3)],
+                "variant": {"dt": "f8", "lay": "C", "shp": "tuple"}, "reg3": ["tuple"] * 4, "opt": {},
+                "rounds": [{}]}
+
+    @staticmethod
+    def _fit_dtype(case, prefer):
+        """the first dtype of `prefer` (then f8) in which every value of every round is exact."""
+        muls = [Fraction(r.get("mul", 1)) for r in case["rounds"]]
+        vals = [Fraction(v) for v in case["values"]]
+        for dt in list(prefer) + ["f8"]:
+            if all(_exact_as(v * m, dt) for v in vals for m in muls):
+                return dt
+        return None
+
+    def _apply_row(self, case, row, rng):
+        """fold one row of option values (WORLD_AXES names) into a world case."""
+        case["opt"] = {k: row[k] for k in ("a2d_ctor", "a2d_values", "store_native", "skip_mask", "mask_kind",
+                                           "origin", "pixel_scales", "ext_ctor", "ext_header", "hdr_opts",
+                                           "omit_none", "explicit_defaults", "layout_via") if k in row}
+        h, w = case["h"], case["w"]
+        if case["opt"].get("mask_kind") == "masked":
+            cells = [(y, x) for y in range(h) for x in range(w)]
+            case["opt"]["masked"] = [list(c) for c in rng.sample(cells, rng.randint(1, max(1, len(cells) // 2)))]
+        if "present" in row:
+            regs = _regions(h, w)
+            case["regions"] = [(case["regions"][i] or list(rng.choice(regs))) if row["present"] >> i & 1 else None
+                               for i in range(3)]
+        if "corner" in row:
+            case["corner"] = list(CORNERS[row["corner"]])
+        if "corner2" in row:
+            case["corner2"] = list(CORNERS[row["corner2"]])
+        if "reg" in row:
+            kinds = ("tuple", "list", "npint", "obj")
+            case["reg3"] = [rng.choice(kinds) for _ in range(4)] if row["reg"] == "mixed" else [row["reg"]] * 4
+        v = dict(case["variant"])
+        for k in ("shp", "lay"):
+            if k in row:
+                v[k] = row[k]
+        case["variant"] = v
+        if "dt" in row:
+            if row["dt"] == "u1":
+                case["values"] = qlist(rng.sample(range(0, 256), h * w))
+            v["dt"] = self._fit_dtype(case, [row["dt"]])
+        return case
+
+    def _opt_pair_worlds(self, rng):
+        """R5-C / R5-F: every pair of values of every two option / container axes occurs together (greedy
+        covering array, seed-independent rows; the frame, regions and values are seeded)."""
+        if not hasattr(C19, "_pair_rows"):
+            C19._pair_rows = _pairwise_rows(WORLD_AXES)
+        for row in C19._pair_rows:
+            yield self._apply_row(self._world_base(rng, tag="opt_pair"), row, rng)
+
+    def _ctn_worlds(self, rng, n):
+        """R5-C: seeded random combinations of the same axes (triples and beyond), half of them near the defaults."""
+        for _ in range(n):
+            near = rng.random() < 0.5
+            row = {k: (vals[0] if near and rng.random() < 0.7 else rng.choice(vals)) for k, vals in WORLD_AXES.items()}
+            yield self._apply_row(self._world_base(rng, tag="ctn_world"), row, rng)
+
+    def _own_worlds(self, rng, n):
+        """R5-B ownership histories: observe -> scribble over every array / object the API returned or accepted
+        -> rebuild the same world from fresh equal inputs (or overwrite the caller's own array in place and pass
+        the same object again) -> observe; three rounds."""
+        k = 0
+        for c in CORNERS:
+            for mode in ("nan", "neg2"):
+                for reuse in (False, True):
+                    case = self._world_base(rng, h=3 + k % 3, w=4 + k % 2, tag="own_world")
+                    k += 1
+                    case["corner"] = list(c)
+                    case["regions"] = [r or [0, 1, 0, 1] for r in case["regions"]]
+                    case["reg3"] = ["obj" if k % 2 else "tuple"] * 4
+                    case["variant"] = {"dt": "f8", "lay": "F" if k % 3 == 0 else "C", "shp": "tuple"}
+                    case["rounds"] = [{"scribble": mode}, {"scribble": mode, "src": "reuse" if reuse else "fresh"},
+                                      {"scribble": mode, "src": "reuse" if reuse else "fresh"}]
+                    yield case
+        for _ in range(n):
+            case = self._world_base(rng, tag="own_world")
+            row = {k_: (vals[0] if rng.random() < 0.6 else rng.choice(vals)) for k_, vals in WORLD_AXES.items()
+                   if k_ not in ("dt", "lay")}
+            self._apply_row(case, row, rng)
+            same = rng.random() < 0.6  # the same world three times / the world's values change between rounds
+            rounds = []
+            for i in range(3):
+                rounds.append({"scribble": rng.choice(("nan", "neg2", "nan", None)),
+                               "src": "fresh" if i == 0 else rng.choice(("fresh", "fresh", "reuse")),
+                               "mul": q(Fraction(1) if same or i == 0 else rng.choice((Fraction(1), Fraction(-2), Fraction(-1),
+                                                                                          Fraction(4), Fraction(1, 2))))})
+            case["rounds"] = rounds
+            case["variant"] = {**case["variant"], "lay": rng.choice(LAYS2),
+                               "dt": self._fit_dtype(case, [rng.choice(("f8", "f8", "f4", "i8"))])}
+            yield case
+
+    def _cfg_worlds(self, rng, n):
+        """R5-D: general.structures.native_binned_only is the one configuration value the anchored code reads
+        (Array2D.__init__).  It is flipped BETWEEN rounds (fresh objects) and between building and reading the
+        same objects (`reread_cfg`); explicit store_native values are the controls.  Rotation / extraction
+        results do not depend on it."""
+        pats = ([(True, False), (False, True), (None, None)], [(True, None), (False, None), (True, None)],
+                [(False, True), (True, False), (False, None)], [(True, True), (None, False), (True, False)])
+        for i in range(n):
+            case = self._world_base(rng, tag="cfg_world")
+            row = {k_: (vals[0] if rng.random() < 0.6 else rng.choice(vals)) for k_, vals in WORLD_AXES.items()
+                   if k_ not in ("dt",)}
+            self._apply_row(case, row, rng)
+            case["rounds"] = [{"cfg": a, "reread_cfg": b, "src": "fresh" if j == 0 else rng.choice(("fresh", "reuse"))}
+                              for j, (a, b) in enumerate(pats[i % len(pats)])]
+            yield case
+
+    def _dec_worlds(self, rng, quick):
+        """R5-A / R5-E decades stream: the frame's values at 2^k (k from the denormals to 2^1000), one ingredient
+        nearly degenerate (nearly mirror-symmetric rows / columns / point-symmetric, nearly uniform, nearly zero,
+        only the region's content scaled, a 2^100 dynamic range); mask geometry (pixel scales, origin) at
+        decades and far from zero.  Flips and slices move values: every comparison is exact."""
+        ks = list(DEC_K_QUICK) if quick else list(range(-1070, 1001, 10)) + [-45, 45]
+        ks.sort(key=lambda k: (abs(k), k))  # moderate decades first: the first replay found is the most readable
+        for k in ks:
+            for pat in DEC_PATTERNS:
+                for rep in range(1):
+                    case = self._world_base(rng, h=rng.randint(2, 6), w=rng.randint(2, 7), tag="dec_world")
+                    j = rng.choice((20, 24, 30, 40))
+                    kk = k
+                    while True:
+                        vals = _dec_values(rng, case["h"], case["w"], pat, kk, j, case["region"])
+                        if all(_exact_as(v, "f8") for v in vals):
+                            break
+                        kk = kk + 40 if kk < 0 else kk - 40  # left the doubles: step back towards 1
+                    case["values"] = qlist(vals)
+                    case["dec"] = {"pat": pat, "k": kk, "j": j}
+                    case["tag"] = "dec_world" if abs(kk) <= 60 else "dec_world_extreme"
+                    r = rng.random()
+                    prefer = ["f4"] if r < 0.3 else ["i8"] if r < 0.4 else []
+                    case["variant"] = {"dt": self._fit_dtype(case, prefer), "lay": rng.choice(LAYS2),
+                                       "shp": rng.choice(("tuple", "list", "npint"))}
+                    k2 = rng.choice((-40, -30, -10, 0, 10, 30, 40))
+                    case["opt"] = {"a2d_ctor": rng.choice(("init", "no_mask", "from_a2d_native", "init", "no_mask_slim")),
+                                   "a2d_values": rng.choice(("nd", "nd", "list")),
+                                   "store_native": rng.random() < 0.5,
+                                   "mask_kind": rng.choice(("all_false", "all_false", "masked", "bool_lay")),
+                                   "pixel_scales": rng.choice((2.0 ** k2, [2.0 ** k2, 2.0 ** -k2], 1.0)),
+                                   "origin": rng.choice((None, [2.0 ** k2 * 3, -2.0 ** abs(k2)], FAR_ORIGIN,
+                                                         [1e5, -3e5])),
+                                   "ext_ctor": rng.choice(WORLD_AXES["ext_ctor"])}
+                    if case["opt"]["mask_kind"] == "masked":
+                        cells = [(y, x) for y in range(case["h"]) for x in range(case["w"])]
+                        case["opt"]["masked"] = [list(c) for c in rng.sample(cells, rng.randint(1, len(cells) // 2))]
+                    yield case
+
     # ------------------------------------------------------------------ implementation
     def run_impl(self, case):
         aa = load_autoarray()
@@ -881,6 +1197,8 @@ class C19(PropertyCheck):
         from autoarray.layout import layout_util as lu
 
         kind = case["kind"]
+        if kind == "world":
+            return self._run_world(aa, lu, case)
         if kind == "history":
             return self._run_history(aa, lu, case)
         if kind == "large_frame":
@@ -1043,11 +1361,285 @@ class C19(PropertyCheck):
             obs["original_orientation"] = {"err": "IndexError"}
         return obs
 
+    # ================================================================== round-5/6: worlds (implementation side)
+    @staticmethod
+    def _cfg_get():
+        from autoconf import conf
+        return conf.instance["general"]["structures"]["native_binned_only"]
+
+    @staticmethod
+    def _cfg_set(v):
+        from autoconf import conf
+        conf.instance["general"]["structures"]["native_binned_only"] = v
+
+    _sig_cache = {}
+
+    @classmethod
+    def _call(cls, f, explicit_defaults, **kw):
+        """f(**kw); with `explicit_defaults` every optional parameter the signature declares and the caller does
+        not give is passed explicitly with its declared default (omitted vs explicit default must not matter)."""
+        if explicit_defaults:
+            import inspect
+            key = getattr(f, "__func__", f)
+            params = cls._sig_cache.get(key)
+            if params is None:
+                try:
+                    params = [(n, p.default) for n, p in inspect.signature(f).parameters.items()
+                              if p.default is not inspect.Parameter.empty
+                              and p.kind in (p.POSITIONAL_OR_KEYWORD, p.KEYWORD_ONLY)]
+                except (TypeError, ValueError):
+                    params = []
+                cls._sig_cache[key] = params
+            for n, d in params:
+                kw.setdefault(n, d)
+        return f(**kw)
+
+    def _run_world(self, aa, lu, case):
+        from autoarray import exc
+        cfg0 = self._cfg_get()
+        out, prev = [], None
+        try:
+            for rnd in case.get("rounds") or [{}]:
+                if rnd.get("cfg") is not None:
+                    self._cfg_set(bool(rnd["cfg"]))
+                o, prev = self._world_round(aa, lu, case, rnd, prev)
+                out.append(o)
+        except exc.RegionException:
+            return {"err": "bad_region"}
+        finally:
+            self._cfg_set(cfg0)
+        return out
+
+    @staticmethod
+    def _scribble(mode, arrays, regions, layouts, headers, aa):
+        """overwrite, in place, what the previous calls returned or accepted (a caller may do that with its own
+        objects; nothing a later call on fresh inputs returns may depend on it)."""
+        for x in arrays:
+            try:
+                if not isinstance(x, np.ndarray):
+                    x = x.array  # an Array1D / Array2D: its stored buffer
+                if not isinstance(x, np.ndarray) or x.size == 0:
+                    continue
+                kind = x.dtype.kind
+                if kind == "b":
+                    x[...] = ~x
+                elif mode == "nan":
+                    x[...] = np.nan if kind == "f" else 77
+                elif kind == "u":
+                    x += 1
+                else:
+                    x *= -2
+            except (ValueError, TypeError, AttributeError):
+                pass  # read-only buffer
+        for r in regions:
+            if r is not None and hasattr(r, "region"):
+                r.region = (0, 1) if isinstance(r, aa.Region1D) else (0, 1, 0, 1)
+        for l in layouts:
+            if l is not None:
+                l.parallel_overscan, l.serial_prescan, l.serial_overscan = None, aa.Region2D(region=(0, 1, 0, 1)), None
+                l.original_roe_corner = (1, 0) if tuple(l.original_roe_corner) != (1, 0) else (0, 1)
+                l.shape_2d = (1, 1)
+        for hd in headers:
+            hd.original_roe_corner = (1, 0) if tuple(hd.original_roe_corner) != (1, 0) else (0, 1)
+
+    def _world_round(self, aa, lu, case, rnd, prev):
+        from autoarray import exc
+        h, w = case["h"], case["w"]
+        opt = case.get("opt") or {}
+        var = self._var(case)
+        dt = var.get("dt") or "f8"
+        lay = var.get("lay", "C")
+        xd = bool(opt.get("explicit_defaults"))
+        call = self._call
+        mul = Fraction(rnd.get("mul", 1))
+        fr = [Fraction(v) * mul for v in case["values"]]
+        conv = int if dt in INT_RANGE else float
+        plain = np.array([conv(f) for f in fr], dtype=NP_DT[dt]).reshape(h, w)
+        if rnd.get("src") == "reuse" and prev is not None and prev["a"].flags.writeable:
+            a = prev["a"]  # the caller's own array object, overwritten in place with this round's values
+            a[...] = plain
+        else:
+            a = _relayout(plain, lay)
+        ret_arrays, ret_regions, ret_layouts = [], [], []
+        acc_arrays, acc_regions, acc_headers = [a], [], []
+
+        def keep(x, where=ret_arrays):
+            where.append(x)
+            return x
+
+        def reg_out(r):
+            return None if r is None else [int(v) for v in r.region]
+
+        kinds = case.get("reg3") or ["tuple"] * 4
+
+        def reg_arg(r, kind, tuple_only=False):
+            if r is None:
+                return None
+            if kind == "obj":
+                return keep(aa.Region2D(region=tuple(int(v) for v in r)), acc_regions)
+            if kind == "list" and not tuple_only:
+                return [int(v) for v in r]
+            if kind == "npint":
+                return tuple(np.int64(v) for v in r)
+            return tuple(int(v) for v in r)
+
+        shp = self._shp(case, (h, w))
+        c, c2 = tuple(case["corner"]), tuple(case["corner2"])
+        R0, win = case["region"], case["window"]
+        obs = {}
+
+        # -- (a) array / region rotation on the bare functions
+        reg = reg_arg(R0, kinds[3])
+        ra = keep(lu.rotate_array_via_roe_corner_from(array=a, roe_corner=c))
+        rr = keep(lu.rotate_region_via_roe_corner_from(region=reg, shape_native=shp, roe_corner=c), ret_regions)
+        back = keep(lu.rotate_region_via_roe_corner_from(region=rr if kinds[3] == "obj" else rr.region,
+                                                         shape_native=shp, roe_corner=c), ret_regions)
+        r0 = aa.Region2D(region=tuple(R0))
+        ta = keep(lu.rotate_array_via_roe_corner_from(array=ra, roe_corner=c))
+        obs["rotate"] = {"rotated_region": reg_out(rr), "rotated_array": _rows(ra),
+                         "slice_of_rotated": _rows(keep(ra[rr.slice])), "slice": _rows(keep(a[r0.slice])),
+                         "slice_xy": _rows(a[r0.y_slice, r0.x_slice]), "twice_array": _rows(ta),
+                         "twice_region": reg_out(back)}
+
+        # -- (b) region after extraction and what it addresses inside the window
+        ext_r = keep(lu.region_after_extraction(original_region=reg_arg(R0, kinds[3]),
+                                                extraction_region=reg_arg(win, kinds[0])), ret_regions)
+        win_arr = a[aa.Region2D(region=tuple(win)).slice]
+        obs["extract"] = {"region": reg_out(ext_r), "content": None if ext_r is None else _rows(win_arr[ext_r.slice])}
+
+        # -- (c) front / trailing sub-regions of R0
+        px = tuple(case["pixels"])
+        if var.get("shp") == "list":
+            px = list(px)
+        elif var.get("shp") == "npint":
+            px = tuple(np.int64(v) for v in px)
+
+        def sub(f):
+            try:
+                return reg_out(keep(call(f, xd, pixels=px), ret_regions))
+            except exc.RegionException:
+                return dict(BAD)
+
+        rs = aa.Region2D(region=tuple(R0))
+        obs["sub"] = {"pfront": sub(rs.parallel_front_region_from), "sfront": sub(rs.serial_front_region_from),
+                      "ptrail": sub(rs.parallel_trailing_region_from), "strail": sub(rs.serial_trailing_region_from)}
+
+        # -- (d) the Layout2D scenario
+        names = NAMES3
+        regs = [reg_arg(r, kinds[i], tuple_only=opt.get("layout_via") == "ctor_then_rot")
+                for i, r in enumerate(case["regions"])]
+        kw = {n: r for n, r in zip(names, regs) if not (r is None and opt.get("omit_none"))}
+        if opt.get("layout_via") == "ctor_then_rot":
+            l0 = keep(call(aa.Layout2D, xd, shape_2d=shp, **kw), ret_layouts)
+            lay_ = l0.new_rotated_from(roe_corner=c)
+        else:
+            lay_ = call(aa.Layout2D.rotated_from_roe_corner, xd, roe_corner=c, shape_native=shp, **kw)
+        keep(lay_, ret_layouts)
+        lobs = {"rotated": [reg_out(getattr(lay_, n)) for n in names],
+                "roe": [int(v) for v in lay_.original_roe_corner], "shape": [int(v) for v in lay_.shape_2d]}
+        lay2 = keep(lay_.new_rotated_from(roe_corner=c2), ret_layouts)
+        lobs["rotated2"] = [reg_out(getattr(lay2, n)) for n in names]
+        lobs["roe2"] = [int(v) for v in lay2.original_roe_corner]
+        ext = keep(lay_.layout_extracted_from(extraction_region=reg_arg(win, kinds[0])), ret_layouts)
+        lobs["extracted"] = [reg_out(getattr(ext, n)) for n in names]
+        for l in (lay_, lay2, ext):
+            ret_regions.extend(getattr(l, n) for n in names)
+        lo = keep(lay_.original_orientation_from(array=a))
+        lobs["orientation_from"] = _rows(lo)
+
+        ps = opt.get("pixel_scales", 1.0)
+        ps = tuple(ps) if isinstance(ps, list) else ps
+        okw = {} if opt.get("origin") is None else {"origin": tuple(opt["origin"])}
+        hdr = keep(aa.Header(original_roe_corner=c, **HDR_OPTS[opt.get("hdr_opts", 0)]), acc_headers)
+
+        def mask(masked=()):
+            mk = opt.get("mask_kind", "all_false")
+            base = np.zeros((h, w), dtype=bool)
+            for y, x in masked:
+                base[y, x] = True
+            if mk == "all_false" and not masked:
+                return call(aa.Mask2D.all_false, xd, shape_native=(h, w), pixel_scales=ps, **okw)
+            if mk == "list":
+                return call(aa.Mask2D, xd, mask=base.tolist(), pixel_scales=ps, **okw)
+            if mk == "from_mask":  # a mask built from a mask, origin given as exactly (0.0, 0.0) unless it is an option
+                m0 = call(aa.Mask2D, xd, mask=base, pixel_scales=ps, **okw)
+                return call(aa.Mask2D, xd, mask=m0, pixel_scales=ps, **(okw or {"origin": (0.0, 0.0)}))
+            if mk == "inverted":
+                return call(aa.Mask2D, xd, mask=keep(~base, acc_arrays), pixel_scales=ps, invert=True, **okw)
+            return call(aa.Mask2D, xd, mask=keep(_relayout(base, lay), acc_arrays), pixel_scales=ps, **okw)
+
+        def a2d(values, ctor, masked=(), header=None, store_native=False, skip_mask=None, as_list=False):
+            """an Array2D holding `values` (a native ndarray) built the way the options say."""
+            vals = values.tolist() if as_list else values
+            ikw = {} if skip_mask is None or (skip_mask and masked) else {"skip_mask": skip_mask}
+            if ctor == "no_mask" and not masked:
+                return call(aa.Array2D.no_mask, xd, values=vals, pixel_scales=ps, header=header, **okw)
+            if ctor == "no_mask_slim" and not masked:
+                flat = [v for r in vals for v in r] if as_list else values.reshape(-1)
+                return call(aa.Array2D.no_mask, xd, values=flat, shape_native=shp, pixel_scales=ps, header=header,
+                            **okw)
+            if ctor in ("from_a2d_slim", "from_a2d_native"):
+                inner = call(aa.Array2D, xd, values=vals, mask=mask(masked), store_native=ctor == "from_a2d_native")
+                return call(aa.Array2D, xd, values=inner, mask=mask(masked), header=header, store_native=store_native,
+                            **ikw)
+            if ctor == "apply_mask":
+                return call(aa.Array2D.no_mask, xd, values=vals, pixel_scales=ps, header=header,
+                            **okw).apply_mask(mask=mask(masked))
+            if ctor in ("native_of", "slim_of"):
+                base = call(aa.Array2D, xd, values=vals, mask=mask(masked), header=header,
+                            store_native=ctor == "slim_of", **ikw)
+                return base.native if ctor == "native_of" else base.slim
+            return call(aa.Array2D, xd, values=vals, mask=mask(masked), header=header, store_native=store_native,
+                        **ikw)
+
+        # the layout lives on the rotated array
+        ector = {"no_mask": "no_mask", "init_slim": "init", "init_native": "init", "native_of": "native_of"}[
+            opt.get("ext_ctor", "no_mask")]
+        arr = keep(a2d(lo, ector, header=None if opt.get("ext_header") is None else hdr,
+                       store_native=opt.get("ext_ctor") == "init_native"), acc_arrays)
+        po = so = None
+        if lay_.parallel_overscan is not None:
+            po = keep(lay_.extract_parallel_overscan_array_2d_from(array=arr))
+        if lay_.serial_overscan is not None:
+            so = keep(lay_.extract_serial_overscan_array_from(array=arr))
+        lobs["parallel_overscan_array"] = None if po is None else _rows(po.native.array)
+        lobs["serial_overscan_array"] = None if so is None else _rows(so.native.array)
+        masked = [tuple(p) for p in opt.get("masked", ())] if opt.get("mask_kind") == "masked" else ()
+        arr2 = keep(a2d(a, opt.get("a2d_ctor", "init"), masked=masked, header=hdr,
+                        store_native=opt.get("store_native", False), skip_mask=opt.get("skip_mask"),
+                        as_list=opt.get("a2d_values") == "list"), acc_arrays)
+        oo = keep(arr2.original_orientation)
+        lobs["original_orientation"] = _rows(np.asarray(oo))
+        obs["layout"] = lobs
+
+        # -- (e) the 1-D twin on the first row
+        l1 = call(aa.Layout1D, xd, shape_1d=(w,), overscan=(int(win[2]), int(win[3])))
+        arr1 = keep(call(aa.Array1D.no_mask, xd, values=a[0], pixel_scales=1.0), acc_arrays)
+        o1 = keep(l1.extract_overscan_array_1d_from(array=arr1))
+        ret_regions.append(l1.overscan)
+        obs["l1d"] = {"overscan": reg_out(l1.overscan), "overscan_array": qlist(np.asarray(o1.native.array).ravel())}
+
+        if rnd.get("reread_cfg") is not None:  # flip the configuration, then read the SAME objects again
+            self._cfg_set(bool(rnd["reread_cfg"]))
+            obs["reread"] = {
+                "original_orientation": _rows(np.asarray(keep(arr2.original_orientation))),
+                "parallel_overscan_array": None if po is None else _rows(
+                    keep(lay_.extract_parallel_overscan_array_2d_from(array=arr)).native.array),
+                "serial_overscan_array": None if so is None else _rows(
+                    keep(lay_.extract_serial_overscan_array_from(array=arr)).native.array)}
+        obs["intact"] = bool(a.shape == plain.shape and np.array_equal(a, plain))
+        if rnd.get("scribble"):
+            self._scribble(rnd["scribble"], ret_arrays + acc_arrays, ret_regions + acc_regions, ret_layouts,
+                           acc_headers, aa)
+        return obs, {"a": a}
+
     # ------------------------------------------------------------------ model
     def model_requests(self, case, impl_obs):
         kind = case["kind"]
         if case.get("large"):
             return []  # judged by the vectorised oracle alone
+        if kind == "world":
+            return self._world_requests(case)
         if kind == "history":
             arrays = [[a["values"][y * a["w"]:(y + 1) * a["w"]] for y in range(a["h"])] for a in case["arrays"]]
             return [{"op": "c19.history", "arrays": arrays, "steps": case["steps"]}]
@@ -1092,8 +1684,73 @@ class C19(PropertyCheck):
                      "regions": case["regions"]}]
         raise ValueError(kind)
 
+    @staticmethod
+    def _world_rows(case, rnd, zero=()):
+        h, w = case["h"], case["w"]
+        mul = Fraction(rnd.get("mul", 1))
+        vals = [q(Fraction(v) * mul) for v in case["values"]]
+        rows = [vals[y * w:(y + 1) * w] for y in range(h)]
+        for y, x in zero:
+            rows[y][x] = "0"
+        return rows
+
+    @staticmethod
+    def _world_masked(case):
+        opt = case.get("opt") or {}
+        return [tuple(p) for p in opt.get("masked", ())] if opt.get("mask_kind") == "masked" else []
+
+    _WORLD_SUBS = (("pfront", "parallel_front"), ("sfront", "serial_front"), ("ptrail", "parallel_trailing"),
+                   ("strail", "serial_trailing"))
+
+    def _world_requests(self, case):
+        """per round: the existing single-purpose ops on the round's values (the model has no state)."""
+        reqs = []
+        masked = self._world_masked(case)
+        win = case["window"]
+        for rnd in case.get("rounds") or [{}]:
+            rows = self._world_rows(case, rnd)
+            reqs.append({"op": "c19.layout", "rows": rows, "regions": case["regions"], "corner": case["corner"],
+                         "corner2": case["corner2"], "window": win})
+            reqs.append({"op": "c19.rotate_slice", "rows": rows, "region": case["region"], "corner": case["corner"]})
+            reqs.append({"op": "c19.extract_slice", "rows": rows, "orig": case["region"], "window": win})
+            for _, k in self._WORLD_SUBS:
+                reqs.append({"op": "c19.sub_region", "kind": k, "region": case["region"], "pixels": case["pixels"]})
+            reqs.append({"op": "c19.region_new", "dim": 1, "region": [win[2], win[3]]})
+            reqs.append({"op": "c19.slice", "dim": 1, "region": [win[2], win[3]], "values": rows[0]})
+            # Array2D.original_orientation of a MASKED array: the native array has zeros at the masked pixels
+            reqs.append({"op": "c19.rotate_array", "rows": self._world_rows(case, rnd, masked),
+                         "corner": case["corner"]})
+        return reqs
+
+    _WORLD_NREQ = 10
+
+    def _world_model_obs(self, case, responses):
+        out = []
+        n = self._WORLD_NREQ
+        for i, rnd in enumerate(case.get("rounds") or [{}]):
+            rs = responses[i * n:(i + 1) * n]
+
+            def val(r):
+                return r["ok"] if "ok" in r else {"err": r["err"]}
+
+            for r in (rs[0], rs[1], rs[2], rs[7], rs[8], rs[9]):
+                if "err" in r:
+                    return {"err": r["err"]}
+            lobs = dict(rs[0]["ok"])
+            lobs["original_orientation"] = rs[9]["ok"]
+            o = {"layout": lobs, "rotate": {**rs[1]["ok"], "slice_xy": rs[1]["ok"]["slice"]}, "extract": rs[2]["ok"],
+                 "sub": {name: val(rs[3 + j]) for j, (name, _) in enumerate(self._WORLD_SUBS)},
+                 "l1d": {"overscan": rs[7]["ok"], "overscan_array": rs[8]["ok"]}, "intact": True}
+            if rnd.get("reread_cfg") is not None:
+                o["reread"] = {k: lobs[k] for k in ("original_orientation", "parallel_overscan_array",
+                                                    "serial_overscan_array")}
+            out.append(o)
+        return out
+
     def model_obs(self, case, responses):
         kind = case["kind"]
+        if kind == "world":
+            return self._world_model_obs(case, responses)
         if kind == "rotate_region":
             # `rotate_region_via_roe_corner_from` takes a tuple: only the rotated tuple is validated
             r = responses[1]
@@ -1308,6 +1965,54 @@ class C19(PropertyCheck):
         if obs["original_orientation"] != ra:
             return False, (f"Array2D.original_orientation (store_native={case['store_native']}, corner {c}) "
                            f"= {obs['original_orientation']}, expected the flipped native array")
+        return True, ""
+
+    def _oracle_world(self, case, obs):
+        """every round, restated independently: a FRESH world with the round's values (flips by list reversal,
+        reflection arithmetic, overlap by max / min, the closed sub-region arithmetic); nothing may depend on the
+        earlier rounds, on what the caller did to returned / accepted objects, on the configuration, or on how the
+        equal-valued inputs were spelled."""
+        if isinstance(obs, dict):
+            return False, f"the world raised: {obs}"
+        rounds = case.get("rounds") or [{}]
+        if len(obs) != len(rounds):
+            return False, "world observation has the wrong number of rounds"
+        h, w = case["h"], case["w"]
+        masked = self._world_masked(case)
+        win, R0, c = case["window"], case["region"], case["corner"]
+        for i, (rnd, o) in enumerate(zip(rounds, obs)):
+            pre = f"round {i} {json.dumps(rnd)}: "
+            vals = [x for r in self._world_rows(case, rnd) for x in r]
+            rows = [vals[y * w:(y + 1) * w] for y in range(h)]
+            lo = dict(o["layout"])
+            want_oo = _flip(self._world_rows(case, rnd, masked), c)
+            if lo["original_orientation"] != want_oo:
+                return False, (pre + f"Array2D.original_orientation (corner {c}, options {json.dumps(case.get('opt'))}) "
+                               f"= {str(lo['original_orientation'])[:300]}, expected the flipped native array "
+                               f"{str(want_oo)[:300]}")
+            lo["original_orientation"] = _flip(rows, c)
+            for sub_case, sub_obs, f in (
+                    ({"h": h, "w": w, "values": vals, "regions": case["regions"], "corner": c,
+                      "corner2": case["corner2"], "window": win, "store_native": None}, lo, self._oracle_layout),
+                    ({"h": h, "w": w, "values": vals, "region": R0, "corner": c}, o["rotate"], self._oracle_rotate),
+                    ({"h": h, "w": w, "values": vals, "orig": R0, "window": win}, o["extract"], self._oracle_extract)):
+                ok, d = f(sub_case, sub_obs)
+                if not ok:
+                    return False, pre + d
+            for name, k in self._WORLD_SUBS:
+                ok, d = self._oracle_sub({"sub": k, "region": R0, "pixels": case["pixels"], "from_end": None,
+                                          "shape": [h, w]}, o["sub"][name])
+                if not ok:
+                    return False, pre + d
+            if o["l1d"] != {"overscan": [win[2], win[3]], "overscan_array": rows[0][win[2]:win[3]]}:
+                return False, pre + f"Layout1D overscan extraction {o['l1d']} is not row[x0:x1]"
+            if "reread" in o:
+                for k, v in o["reread"].items():
+                    if v != (want_oo if k == "original_orientation" else lo[k]):
+                        return False, (pre + f"{k} read again from the same objects after the configuration changed to "
+                                       f"native_binned_only={rnd.get('reread_cfg')} differs")
+            if o.get("intact") is not True:
+                return False, pre + "the caller's array was modified by the library"
         return True, ""
 
     # ================================================================== round-4: histories (implementation side)
@@ -1741,9 +2446,14 @@ class C19(PropertyCheck):
 
     def _bigcoord_cases(self, sizes, rng, tag):
         """coordinates / extents at a given magnitude: pure integer arithmetic, compared with the model."""
+        s = 0
+
         def var():
-            return {"dt": "f8", "reg": rng.choice(("tuple", "list", "npint", "obj")),
-                    "shp": rng.choice(("tuple", "list", "npint")), "omit_defaults": False, "ctor": "a", "lay": "C"}
+            # numpy int64 spellings only where every derived coordinate (up to 2s + 9) fits an int64
+            np_ok = s < 2 ** 61
+            return {"dt": "f8", "reg": rng.choice(("tuple", "list", "npint", "obj") if np_ok else ("tuple", "list", "obj")),
+                    "shp": rng.choice(("tuple", "list", "npint") if np_ok else ("tuple", "list")),
+                    "omit_defaults": False, "ctor": "a", "lay": "C"}
         for s in sizes:
             if s < 4:
                 continue
@@ -1807,7 +2517,42 @@ class C19(PropertyCheck):
     def known_finding(self, case, obs):
         return None
 
+    def _shrink_world(self, case):
+        # The rounds (scribbles, configuration flips, re-use) are never shrunk: what they expose is process-wide state
+        # (a memo handing out its own buffer, a latched configuration value).  Once that state is corrupted every
+        # later evaluation in this process fails, also of a candidate without the round that corrupted it -- the
+        # minimiser would drop exactly the steps a replay in a fresh process needs.
+        v = self._var(case)
+        if v.get("lay", "C") != "C":
+            yield {**case, "variant": {**v, "lay": "C"}}
+        if (v.get("dt") or "f8") != "f8":
+            yield {**case, "variant": {**v, "dt": "f8"}}
+        if v.get("shp", "tuple") != "tuple":
+            yield {**case, "variant": {**v, "shp": "tuple"}}
+        opt = case.get("opt") or {}
+        for k in list(opt):
+            if k == "masked":
+                continue
+            o2 = {kk: vv for kk, vv in opt.items() if kk != k and not (k == "mask_kind" and kk == "masked")}
+            yield {**case, "opt": o2}
+        if case.get("reg3") != ["tuple"] * 4:
+            yield {**case, "reg3": ["tuple"] * 4}
+        for i in range(3):
+            if case["regions"][i] is not None:
+                regs = list(case["regions"])
+                regs[i] = None
+                yield {**case, "regions": regs}
+        if any(Fraction(x) != Fraction(i + 1) for i, x in enumerate(case["values"])):
+            yield {**{k: x for k, x in case.items() if k != "dec"}, "values": qlist(range(1, case["h"] * case["w"] + 1))}
+        h, w = case["h"], case["w"]
+        for k in ("region", "window"):
+            if case[k] != [0, h, 0, w]:
+                yield {**case, k: [0, h, 0, w]}
+
     def shrink(self, case):
+        if case["kind"] == "world":
+            yield from self._shrink_world(case)
+            return
         if case["kind"] == "history":
             steps = case["steps"]
             if len(steps) > 1:
@@ -1891,6 +2636,12 @@ class C19(PropertyCheck):
             "large_frame": ["C19.rotate_commutes_with_slice", "C19.rotateArray_twice", "C19.rotateRegion_twice",
                             "C19.layout_rotated_slices_rotated_content", "C19.extraction_addresses_overlap"],
             "large_1d": ["C19.front1d_content", "C19.front1d_pixels"],
+            "world": ["C19.layout_rotated_slices_rotated_content", "C19.layout_new_rotated_slices_rotated_content",
+                      "C19.layout_rotated_twice", "C19.layout_extracted_regions",
+                      "C19.original_orientation_undoes_rotation", "C19.rotate_commutes_with_slice",
+                      "C19.rotateArray_twice", "C19.rotateRegion_twice", "C19.region_after_extraction_eq_overlap",
+                      "C19.extraction_addresses_overlap", "C19.parallel_front_rows", "C19.serial_front_columns",
+                      "C19.parallel_trailing_rows", "C19.serial_trailing_columns", "C19.front1d_content"],
         }.get(case["kind"], ["C19.*"])
 
 
